@@ -5,7 +5,7 @@
    is finite and ends in a quiescent state; Tinv holds initially and is preserved by every job step AND by every
    API action (theories/TagsC09A.v), hence in every state reachable by an arbitrary history. *)
 From Coq Require Import List NArith Bool.
-From Pk Require Import Tags TagsC16 TagsC06 TagsC09 TagsC09T TagsC09A.
+From Pk Require Import Tags TagsC16 TagsC06 TagsC09 TagsC09T TagsC09A TagsC09M.
 Import ListNotations.
 Open Scope N_scope.
 
@@ -130,6 +130,29 @@ Example C09_failed_tag_evaluation_settles :
                           (5, ABodyTag []); (5, AComplete JTag)] (init [0]) in
   jtag st = None /\ all_certain (tags st) = true /\ queue st = [] /\ jimp st = None.
 Proof. vm_compute. repeat split; reflexivity. Qed.
+
+(* Failing merges (theories/TagsC09M.v; the manager model itself merges successfully, a failing merge is exercised by the
+   harness with the direct oracles): the completion of a failed merge increments nUnmergeableIndexes and a merge only starts
+   at or behind that prefix with at least two indexes, so every failure strictly decreases `length idx - unmergeable`: at
+   most length idx - 1 merges fail in a row. *)
+Theorem C09_failed_merge_decreases_the_measure :
+  forall unm idx off, merge_start unm idx = Some off ->
+  (unm <= off)%nat /\ (off + 2 <= length idx)%nat /\ (length idx - S unm < length idx - unm)%nat.
+Proof.
+  intros unm idx off H. destruct (merge_start_bounds _ _ _ H) as (A & B).
+  split; [exact A|split; [exact B|exact (failed_merge_decreases _ _ _ H)]].
+Qed.
+
+Theorem C09_no_merge_behind_the_end :
+  forall unm idx, (length idx <= unm + 1)%nat -> merge_start unm idx = None.
+Proof. exact nothing_to_merge_behind_the_end. Qed.
+
+(* seeded change C09-r7a-n1: unmergeable := max(unmergeable, offset) leaves the state as it is when the failing run starts at
+   the prefix: the same merge is eligible again *)
+Theorem C09_max_rule_restarts_forever_refuted :
+  let idx := [1; 1; 1] in
+  merge_start 0 idx = Some 0%nat /\ Nat.max 0 0 = 0%nat /\ merge_start (Nat.max 0 0) idx = Some 0%nat.
+Proof. exact max_rule_refuted. Qed.
 
 (* The unrepaired code (56f3838; corpus/C09/merge-not-restarted-after-convert.json): at rest with an eligible
    merge that nothing will start *)
